@@ -430,19 +430,23 @@ func coordinate(ck *Check, tier string, seed int64) int {
 		if ck.Replay != nil {
 			s1, _ := safeReplay(ck, v.Witness)
 			s2, _ := safeReplay(ck, v.Witness)
-			if (s1 != v.Sig || s2 != v.Sig) && ck.UnstableIsViolation {
-				v.Msg = fmt.Sprintf("the same schedule gave different observations when replayed (first run: %s; replays: %q, %q): hidden shared mutable state. First observation: %s", v.Sig, s1, s2, v.Msg)
-				v.Sig = "same-witness-different-observations"
+			if s1 != v.Sig || s2 != v.Sig {
+				// The violation was observed by a deterministic harness but its witness alone does not
+				// reproduce it (identically): what was observed depended on something that outlives one
+				// case - process-wide state in the library (a pooled buffer, a memoised pointer, a package-level
+				// scratch variable). That is a finding about the library, not a reason to discard the
+				// observation: it is reported under its own signature.
+				if ck.UnstableIsViolation {
+					v.Msg = fmt.Sprintf("the same schedule gave different observations when replayed (first run: %s; replays: %q, %q): hidden shared mutable state. First observation: %s", v.Sig, s1, s2, v.Msg)
+					v.Sig = "same-witness-different-observations"
+				} else {
+					v.Msg = fmt.Sprintf("observed in the run but not reproduced identically from its witness alone (replays gave %q, %q): the outcome depends on earlier cases in the same process, i.e. on state the library keeps between calls. Observation: %s", s1, s2, v.Msg)
+					v.Sig = "unstable-" + v.Sig
+				}
 				merged.SigCounts[v.Sig]++
 				if written[v.Sig] >= 1 {
 					continue
 				}
-			} else if s1 != v.Sig || s2 != v.Sig {
-				fmt.Fprintf(os.Stderr, "HARNESS-ERROR: violation sig=%s did not reproduce from its witness (replays gave %q, %q); treated as harness nondeterminism\n", v.Sig, s1, s2)
-				fmt.Fprintf(os.Stderr, "  msg: %s\n  witness: %s\n", v.Msg, string(v.Witness))
-				exit = 2
-				written[v.Sig]++
-				continue
 			}
 		}
 		written[v.Sig]++
